@@ -469,6 +469,13 @@ Section F.
   Definition step2 (who : bool) (x : duo) (e : event) : duo :=
     let w' := fstep (upd_s (d_w x) (if who then d_a x else d_b x)) e in
     {| d_a := if who then fw_s w' else d_a x; d_b := if who then d_b x else fw_s w'; d_w := w' |}.
+
+  Fixpoint frun2 (x : duo) (es : list (bool * event)) : duo * list fw :=
+    match es with
+    | [] => (x, [])
+    | (who, e) :: r => let x1 := step2 who x e in
+                       let '(x2, ws) := frun2 x1 r in (x2, d_w x1 :: ws)
+    end.
 End F.
 
 (* ------------------------------------------------------------------ reference parameters (today's source) *)
@@ -511,20 +518,24 @@ Section Run.
   Variable wrapped : string -> bool.
   Variables cstor cretr clist cmlsd : list string.
 
-  (* fn 0: [users; tree; events; plan (0/1 per backend call of the session); block size]
-           -> [final session; final tree; steps; total backend calls]
+  (* fn 0: [users; tree; events [session 0/1; verb; arg; payload option]; plan (0/1 per backend call of the
+           run); block size] -> [final session A; final session B; final tree; steps; total backend calls]
+           (two sessions on one backend; a single-session script simply never selects session 1)
      fn 1: the structural parameters this binary was built with *)
   Definition run_faults (fn : Z) (a : sx) : sx :=
     match fn with
     | 0%Z =>
         let users := map user_of_sx (list_of_sx (nth_sx 0 a)) in
         let fs := node_of_sx_fuel 64 (nth_sx 1 a) in
-        let es := map event_of_sx (list_of_sx (nth_sx 2 a)) in
+        let es := map (fun x => (negb (bool_of_sx (nth_sx 0 x)),
+                                 event_of_sx (L (tl (list_of_sx x))))) (list_of_sx (nth_sx 2 a)) in
         let plan := map bool_of_sx (list_of_sx (nth_sx 3 a)) in
         let blk := Z.to_nat (z_of_sx (nth_sx 4 a)) in
         let w0 := init_fw fs plan in
-        let '(w, ws) := frun users table conds react wrapped cstor cretr clist cmlsd blk w0 es in
-        L [ sx_of_sess (fw_s w); sx_of_node_fuel 64 (fw_fs w); L (sx_steps w0 ws); I (Z.of_nat (fw_n w)) ]
+        let x0 := {| d_a := init_sess; d_b := init_sess; d_w := w0 |} in
+        let '(x, ws) := frun2 users table conds react wrapped cstor cretr clist cmlsd blk x0 es in
+        L [ sx_of_sess (d_a x); sx_of_sess (d_b x); sx_of_node_fuel 64 (fw_fs (d_w x)); L (sx_steps w0 ws);
+            I (Z.of_nat (fw_n (d_w x))) ]
     | 1%Z =>
         L [ L (map sx_of_string cstor); L (map sx_of_string cretr); L (map sx_of_string clist);
             L (map sx_of_string cmlsd);
